@@ -132,9 +132,10 @@ def in_domain(spec, snap):
     return why
 
 
-def write_nc4src(ns, path):
+def write_nc4src(ns, path, strings=False):
     import netCDF4
-    ds = netCDF4.Dataset(path, 'w', format='NETCDF4_CLASSIC')
+    ds = netCDF4.Dataset(path, 'w', format='NETCDF4' if strings
+                         else 'NETCDF4_CLASSIC')
     ds.createDimension('t', None if ns['unlimited'] else ns['m'])
     ds.createDimension('x', ns['n'])
     ds.title = 'archive-style file'
@@ -157,6 +158,12 @@ def write_nc4src(ns, path):
                 mk.reshape(-1)[0] = True
             vals = np.ma.array(vals, mask=mk)
         nv[...] = vals
+    if strings:
+        # a netCDF string variable (representable in the NETCDF4 flavour)
+        sv = ds.createVariable('names', str, ('x',))
+        sv.long_name = 'station names'
+        sv[:] = np.array(['station %d' % i * (1 + i % 2)
+                          for i in range(ns['n'])], dtype=object)
     ds.close()
 
 
@@ -166,7 +173,11 @@ def run(spec, res):
         import PseudoNetCDF as pnc
         with harness.casedir() as d0, harness.handles() as h0:
             p0 = os.path.join(d0, 'archive.nc')
-            write_nc4src(ns, p0)
+            strings = spec['format'] == 'NETCDF4' and \
+                ns['vars'][0]['seed'] % 2 == 0
+            write_nc4src(ns, p0, strings=strings)
+            if strings:
+                res.facet('source:netcdf-string-variable')
             f = h0.keep(pnc.pncopen(p0, format='netcdf'))
             res.facet('source:netcdf4-written-packed')
             return run_file(spec, res, f)
